@@ -79,6 +79,7 @@ func purityCheckArgs(p *Program, r *Report, ef *Effects, rule string, fn *ssa.Fu
 // calls, use the codec without seeing each other: a scratch big.Int, hash state or buffer hoisted into a variable, or
 // a cached slice handed out with spare capacity, is such a write.
 func sharedStateRule(p *Program, r *Report, ef *Effects, rule string, files []string) int {
+	nilNilRule(p, r, strings.Replace(rule, ".shared", ".results", 1), files)
 	want := map[string]bool{}
 	for _, f := range files {
 		want[filepath.Join(p.Repo, f)] = true
@@ -1034,6 +1035,10 @@ func c07strict(p *Program, r *Report, fns map[string]*ssa.Function) {
 		r.Add("C07.strict", FnName(cb), "non-zero leftover bits reject when not padding", cb.Pos(), nonZeroRej, "leftover value ≠ 0 leads only to the error return")
 		r.Add("C07.strict", FnName(cb), "more than four leftover bits reject when not padding", cb.Pos(), tooManyRej, "leftover count > 4 leads only to the error return")
 	}
+	c07rangesExact(p, r, fns["bech32.Decode"], fns["bech32.ConvertBits"])
+	if cb := fns["bech32.ConvertBits"]; cb != nil {
+		c07convertTail(p, r, cb)
+	}
 	r.Floor("C07.strict", 7)
 }
 
@@ -1145,4 +1150,54 @@ func ratioForm(v ssa.Value) (k1, k2 int64, ok bool) {
 		return k, d, true
 	}
 	return 0, 0, false
+}
+
+// nilNilRule (mutation sweep: `return nil, err` turned into `return nil, nil` on a rare error path): a function of the
+// given files that returns (pointer-like value, error) never returns the nil value together with a nil error — the
+// caller, seeing no error, dereferences nil.  Accepting returns (error constant nil) hand out a non-nil first result.
+func nilNilRule(p *Program, r *Report, rule string, files []string) int {
+	n := 0
+	errT := types.Universe.Lookup("error").Type()
+	for _, fn := range p.Funcs {
+		if fn.Parent() != nil || len(fn.Blocks) == 0 {
+			continue
+		}
+		pos := p.Fset.Position(fn.Pos())
+		inFile := false
+		for _, f := range files {
+			if strings.HasSuffix(pos.Filename, "/"+f) {
+				inFile = true
+			}
+		}
+		res := fn.Signature.Results()
+		if !inFile || res.Len() != 2 || !types.Identical(res.At(1).Type(), errT) || !pointerLike(res.At(0).Type()) {
+			continue
+		}
+		_, isSl := res.At(0).Type().Underlying().(*types.Slice)
+		for _, ret := range returnsOf(fn) {
+			if !isNilConst(ret.Results[1]) {
+				// `if err == nil { return nil, err }` (an inverted error test): the error handed out is known to be nil
+				// on this path, so the nil value goes out as a success — for slices as well
+				knownNil := false
+				for _, c := range MustCondsAtBlock(fn, ret.Block()) {
+					if bo, truth, ok := condBinOp(c); ok && ((bo.Op == token.EQL && truth) || (bo.Op == token.NEQ && !truth)) {
+						if (bo.X == ret.Results[1] && isNilConst(bo.Y)) || (bo.Y == ret.Results[1] && isNilConst(bo.X)) {
+							knownNil = true
+						}
+					}
+				}
+				if knownNil {
+					n++
+					r.Add(rule, FnName(fn), "an error that is known to be nil is not returned with a nil value", ret.Pos(), !isNilConst(ret.Results[0]), "the error test is inverted: success returns nothing and the failure falls through")
+				}
+				continue
+			}
+			if isSl {
+				continue // an empty result is a legitimate nil slice
+			}
+			n++
+			r.Add(rule, FnName(fn), "a return without an error hands out a value", ret.Pos(), !isNilConst(ret.Results[0]), "returns (nil, nil): the caller sees no error and a nil result")
+		}
+	}
+	return n
 }
